@@ -135,6 +135,8 @@ struct Violation {
   std::string msg;
 };
 struct CaseResult {
+  bool evalOnly = false;                       // fresh-process evaluation: compute evalOut and return
+  std::string evalOut;
   bool nontrivial = false;
   std::string sig;                             // feature signature (distinctness)
   std::vector<Violation> viol;
@@ -182,6 +184,8 @@ inline std::string wunesc(const std::string &s) {
   return o;
 }
 
+static uint64_t g_seed = 0;        // seed of this run (for case functions that re-execute themselves in a fresh process)
+static std::string g_self;         // path of this executable
 static int g_pipeFd = -1;
 static volatile long long g_curCase = -1;
 inline void onCpuTimeout(int) {
@@ -317,6 +321,23 @@ inline std::pair<std::string, std::string> classifyStderr(const std::string &tex
   return {key, excerpt};
 }
 
+// Evaluate case idx of a part in a freshly executed process (no in-process history); returns false on failure
+inline bool evalInFreshProcess(const std::string &part, uint64_t idx, std::string &out) {
+  std::string cmd = "'" + g_self + "' --part '" + part + "' --seed " + std::to_string((unsigned long long)g_seed) + " --eval-case " + std::to_string((unsigned long long)idx) + " 2>/dev/null";
+  FILE *f = popen(cmd.c_str(), "r");
+  if (!f) return false;
+  char *line = nullptr;
+  size_t cap = 0;
+  bool ok = false;
+  while (getline(&line, &cap, f) > 0) {
+    std::string l(line);
+    if (l.rfind("EVAL ", 0) == 0) { out = l.substr(5); while (!out.empty() && (out.back() == '\n' || out.back() == '\r')) out.pop_back(); ok = true; }
+  }
+  free(line);
+  int rc = pclose(f);
+  return ok && rc == 0;
+}
+
 struct Agg {
   long long cases = 0, completed = 0, nontrivial = 0, inconclusive = 0, crashed = 0;
   std::set<std::string> sigs;
@@ -339,7 +360,7 @@ struct Options {
   uint64_t seed = 1;
   long long cases = 0;
   int shard = 0, nshards = 1;
-  long long replayCase = -1, dumpCase = -1;
+  long long replayCase = -1, dumpCase = -1, evalCase = -1;
   bool nofork = false;
   double budgetScale = 1.0;
 };
@@ -547,6 +568,7 @@ inline int runMain(int argc, char **argv, const std::vector<Part> &parts) {
     else if (a == "--out") opt.out = nxt();
     else if (a == "--replay-case") opt.replayCase = atoll(nxt().c_str());
     else if (a == "--dump-case") opt.dumpCase = atoll(nxt().c_str());
+    else if (a == "--eval-case") opt.evalCase = atoll(nxt().c_str());
     else if (a == "--stderr-dir") opt.stderrDir = nxt();
     else if (a == "--budget-scale") opt.budgetScale = atof(nxt().c_str());
     else if (a == "--list-parts") { for (auto &p : parts) printf("%s\n", p.name.c_str()); return 0; }
@@ -555,6 +577,25 @@ inline int runMain(int argc, char **argv, const std::vector<Part> &parts) {
   const Part *part = nullptr;
   for (auto &p : parts) if (p.name == opt.part) part = &p;
   if (!part) { fprintf(stderr, "unknown part '%s'\n", opt.part.c_str()); return 2; }
+  g_seed = opt.seed;
+  {
+    char buf[4096];
+    ssize_t n = readlink("/proc/self/exe", buf, sizeof buf - 1);
+    if (n > 0) { buf[n] = 0; g_self = buf; } else g_self = argv[0];
+  }
+  if (opt.evalCase >= 0) {
+    // fresh-process evaluation of one case: prints "EVAL <string>" on the last line of stdout
+    CaseResult r;
+    r.evalOnly = true;
+    int saved = dup(1);
+    int dn = open("/dev/null", O_WRONLY);
+    if (dn >= 0) dup2(dn, 1);  // the library prints progress on stdout
+    execCase(*part, opt.seed, opt.evalCase, r);
+    fflush(stdout);
+    dup2(saved, 1);
+    printf("EVAL %s\n", r.evalOut.c_str());
+    return 0;
+  }
   if (opt.dumpCase >= 0) {
     CaseResult r;
     r.dumpOnly = true;
